@@ -6,67 +6,109 @@
 (* driver forces it on the real table.Table (capture routes / a log hook as  *)
 (* scheduler gates) and TableTrace.tla judges what the real code did.        *)
 (*   start d c   dispatcher d starts Dispatch of a class-c metric and runs   *)
-(*               until it is held at the first entry (or returns)            *)
-(*   step d      d is released and runs until held at the next entry/returns *)
+(*               until it is held at the first gate (or returns)             *)
+(*   step d      d is released and runs until held at the next gate/returns  *)
 (*   disp d c    (StepWise = FALSE) a whole dispatch between two operations  *)
-(*   op ...      one admin operation, complete                               *)
+(*   op ...      one admin operation on list l, complete                     *)
 (* DelTail = TRUE restricts deletes to the LAST entry of the list (the case  *)
 (* in which a delete needs no copy: the new slice may share the array of the *)
 (* old one, see TableMem.TruncateTail); this keeps histories of 3 operations *)
 (* (delete-last, delete-last, add with a dispatcher held since before the    *)
 (* first of them) small enough to enumerate every interleaving.              *)
+(*                                                                           *)
+(* FeGate = TRUE: schedules over the WHOLE table (kind "fe").  The table has *)
+(* a front end (blacklist bl, rewriters rw, aggregators agg; the first       *)
+(* aggregator, id GateId, is the driver's gate: an aggregator that matches   *)
+(* nothing and whose mock clock parks the dispatcher inside AddMaybe, i.e.   *)
+(* AFTER Dispatch loaded the configuration and BEFORE its route loop).  The  *)
+(* first gate of a dispatcher is that one ("front"), then (RouteGates) one   *)
+(* gate per capture route as before.  Operations are front-end operations    *)
+(* (FeKinds) and route operations (OpKinds) mixed: a metric in flight sees   *)
+(* changes to several lists.  FeWindow = TRUE keeps only the schedules in    *)
+(* which every operation happens while a dispatcher is held at the front     *)
+(* gate; Mixed = TRUE only those that change a front-end list AND the routes.*)
 EXTENDS TableOps, TLC, Json
 
-CONSTANTS InitN, MaxOps, NDisp, Classes, AddFilters, UpdFilters, OpKinds, StepWise, DelTail
+CONSTANTS InitN, MaxOps, NDisp, Classes, AddFilters, UpdFilters, OpKinds, StepWise, DelTail,
+          FeGate, RouteGates, FeKinds, FeFilters, FeBl, FeRw, FeAgg, FeWindow, Mixed
 
-VARIABLES cur, nops, nextId, dst, dleft, hist
-svars == <<cur, nops, nextId, dst, dleft, hist>>
+VARIABLES cur, nops, nextId, dst, dleft, dld, dcl, hist
+svars == <<cur, nops, nextId, dst, dleft, dld, dcl, hist>>
 Disp == 1..NDisp
+GateId == 99
+FeLists == {"bl", "rw", "agg"}
 
-Rec(ev, d, c, op, e, f, i, k) == [ev |-> ev, d |-> d, c |-> c, op |-> op, e |-> e, f |-> f, i |-> i, k |-> k]
+Rec(ev, d, c, l, op, e, f, i, k) == [ev |-> ev, d |-> d, c |-> c, l |-> l, op |-> op, e |-> e, f |-> f, i |-> i, k |-> k]
 
-SInit == /\ cur = [i \in 1..InitN |-> [id |-> i, f |-> 0]]
+\* the initial table (the driver builds it, front end first, before the schedule starts)
+InitTable == [main |-> [i \in 1..InitN |-> [id |-> i, f |-> 0]],
+              bl   |-> [i \in 1..FeBl  |-> [id |-> 100 + i, f |-> 0]],
+              rw   |-> [i \in 1..FeRw  |-> [id |-> 200 + i, f |-> 0]],
+              agg  |-> (IF FeGate THEN <<[id |-> GateId, f |-> 0]>> ELSE <<>>) \o [i \in 1..FeAgg |-> [id |-> 300 + i, f |-> 0]]]
+
+SInit == /\ cur = InitTable
          /\ nops = 0 /\ nextId = InitN + 1
          /\ dst = [d \in Disp |-> "idle"] /\ dleft = [d \in Disp |-> 0]
+         /\ dld = [d \in Disp |-> InitTable] /\ dcl = [d \in Disp |-> 0]
          /\ hist = <<>>
 
-KeysNow == {KeyOf(e) : e \in 1..(nextId - 1)}
-DelIdx  == IF DelTail THEN {IF Len(cur) = 0 THEN 0 ELSE Len(cur) - 1} ELSE 0..Len(cur)
-DelKeys == IF DelTail THEN (IF Len(cur) = 0 THEN {} ELSE {KeyOf(cur[Len(cur)].id)}) ELSE KeysNow
+Main == cur.main
+KeysNow == IF FeGate THEN {KeyOf(Main[i].id) : i \in 1..Len(Main)} ELSE {KeyOf(e) : e \in 1..(nextId - 1)}
+DelIdx  == IF DelTail THEN {IF Len(Main) = 0 THEN 0 ELSE Len(Main) - 1} ELSE 0..Len(Main)
+DelKeys == IF DelTail THEN (IF Len(Main) = 0 THEN {} ELSE {KeyOf(Main[Len(Main)].id)}) ELSE KeysNow
+\* the gate aggregator (index 0 of agg) is never deleted; refused indexes are covered by the per-list kinds
+FeDelIdx(x) == IF x = "agg" /\ FeGate THEN 1..(Len(cur[x]) - 1) ELSE 0..(Len(cur[x]) - 1)
 Choices ==
-  (IF "add" \in OpKinds THEN {Rec("op", 0, 0, "add", nextId, f, 0, 0) : f \in AddFilters} ELSE {})
-  \cup (IF "delidx" \in OpKinds THEN {Rec("op", 0, 0, "delidx", 0, 0, i, 0) : i \in DelIdx} ELSE {})
-  \cup (IF "delkey" \in OpKinds THEN {Rec("op", 0, 0, "delkey", 0, 0, 0, k) : k \in DelKeys} ELSE {})
-  \cup (IF "updidx" \in OpKinds THEN {Rec("op", 0, 0, "updidx", 0, f, i, 0) : i \in 0..Len(cur), f \in UpdFilters} ELSE {})
-  \cup (IF "updkey" \in OpKinds THEN {Rec("op", 0, 0, "updkey", 0, f, 0, k) : k \in KeysNow, f \in UpdFilters} ELSE {})
+  (IF "add" \in OpKinds THEN {Rec("op", 0, 0, "main", "add", nextId, f, 0, 0) : f \in AddFilters} ELSE {})
+  \cup (IF "delidx" \in OpKinds THEN {Rec("op", 0, 0, "main", "delidx", 0, 0, i, 0) : i \in DelIdx} ELSE {})
+  \cup (IF "delkey" \in OpKinds THEN {Rec("op", 0, 0, "main", "delkey", 0, 0, 0, k) : k \in DelKeys} ELSE {})
+  \cup (IF "updidx" \in OpKinds THEN {Rec("op", 0, 0, "main", "updidx", 0, f, i, 0) : i \in 0..Len(Main), f \in UpdFilters} ELSE {})
+  \cup (IF "updkey" \in OpKinds THEN {Rec("op", 0, 0, "main", "updkey", 0, f, 0, k) : k \in KeysNow, f \in UpdFilters} ELSE {})
+  \cup UNION { (IF (x \o "+") \in FeKinds
+                THEN {Rec("op", 0, 0, x, "add", nextId, f, 0, 0) : f \in (IF x = "rw" THEN {0} ELSE FeFilters)} ELSE {})
+               \cup (IF (x \o "-") \in FeKinds
+                     THEN {Rec("op", 0, 0, x, "delidx", 0, 0, i, 0) : i \in FeDelIdx(x)} ELSE {}) : x \in FeLists }
+
+AtFront == \E d \in Disp : dst[d] = "front"
 
 SOp(o) == /\ nops < MaxOps /\ nops' = nops + 1
-          /\ cur' = ApplyOp(cur, o)
+          /\ (FeWindow => AtFront)
+          /\ cur' = [cur EXCEPT ![o.l] = ApplyOp(@, o)]
           /\ nextId' = IF o.op = "add" THEN nextId + 1 ELSE nextId
           /\ hist' = Append(hist, o)
-          /\ UNCHANGED <<dst, dleft>>
+          /\ UNCHANGED <<dst, dleft, dld, dcl>>
+
+\* where a dispatcher of class c that loaded table T is held next, having passed its front end
+AfterFront(T, c) == IF FateOf(T, c) # "routed" \/ Len(T.main) = 0 \/ ~RouteGates THEN "done" ELSE "run"
 
 SStart(d, c) ==
   /\ dst[d] = "idle" /\ \A x \in 1..(d - 1) : dst[x] # "idle"     \* dispatchers are interchangeable
+  /\ ~AtFront                          \* the front gate holds one dispatcher at a time (it is held inside the aggregator's lock)
+  /\ dld' = [dld EXCEPT ![d] = cur] /\ dcl' = [dcl EXCEPT ![d] = c]
   /\ IF StepWise
-     THEN /\ hist' = Append(hist, Rec("start", d, c, "", 0, 0, 0, 0))
-          /\ dleft' = [dleft EXCEPT ![d] = Len(cur)]
-          /\ dst' = [dst EXCEPT ![d] = IF Len(cur) = 0 THEN "done" ELSE "run"]
-     ELSE /\ hist' = Append(hist, Rec("disp", d, c, "", 0, 0, 0, 0))
+     THEN /\ hist' = Append(hist, Rec("start", d, c, "", "", 0, 0, 0, 0))
+          /\ dleft' = [dleft EXCEPT ![d] = Len(Main)]
+          /\ dst' = [dst EXCEPT ![d] = IF FeGate THEN (IF Hits(cur.bl, c) THEN "done" ELSE "front")
+                                       ELSE IF Len(Main) = 0 THEN "done" ELSE "run"]
+     ELSE /\ hist' = Append(hist, Rec("disp", d, c, "", "", 0, 0, 0, 0))
           /\ dst' = [dst EXCEPT ![d] = "done"] /\ UNCHANGED dleft
   /\ UNCHANGED <<cur, nops, nextId>>
 
 SStep(d) ==
-  /\ dst[d] = "run"
-  /\ hist' = Append(hist, Rec("step", d, 0, "", 0, 0, 0, 0))
-  /\ dleft' = [dleft EXCEPT ![d] = @ - 1]
-  /\ dst' = [dst EXCEPT ![d] = IF dleft[d] = 1 THEN "done" ELSE "run"]
-  /\ UNCHANGED <<cur, nops, nextId>>
+  /\ dst[d] \in {"front", "run"}
+  /\ hist' = Append(hist, Rec("step", d, 0, "", "", 0, 0, 0, 0))
+  /\ IF dst[d] = "front"
+     THEN dst' = [dst EXCEPT ![d] = AfterFront(dld[d], dcl[d])] /\ UNCHANGED dleft
+     ELSE /\ dleft' = [dleft EXCEPT ![d] = @ - 1]
+          /\ dst' = [dst EXCEPT ![d] = IF dleft[d] = 1 THEN "done" ELSE "run"]
+  /\ UNCHANGED <<cur, nops, nextId, dld, dcl>>
 
 SNext == \/ \E o \in Choices : SOp(o)
          \/ \E d \in Disp : (\E c \in Classes : SStart(d, c)) \/ SStep(d)
 SSpec == SInit /\ [][SNext]_svars
 
+IsMixed == /\ \E i \in 1..Len(hist) : hist[i].ev = "op" /\ hist[i].l = "main"
+           /\ \E i \in 1..Len(hist) : hist[i].ev = "op" /\ hist[i].l # "main"
 Terminal == nops = MaxOps /\ \A d \in Disp : dst[d] = "done"
-Emit == Terminal => PrintT("@@S " \o ToJson(hist))
+Emit == (Terminal /\ (Mixed => IsMixed)) => PrintT("@@S " \o ToJson(hist))
 =============================================================================
